@@ -39,7 +39,79 @@ type c20env struct {
 	idx, max        int64
 }
 
+// userOptionsWinRule (R20e): makeOptions sets its defaults before the caller's options run and does
+// not touch an option-settable field afterwards — a default applied "when the field is still zero"
+// silently replaces an explicit MaxIdx(0) (or any other explicit zero) by the default.
+func userOptionsWinRule(c *Ctx, r *Report) {
+	r.Rule("R20e", "makeOptions stores into no field that an Option can set after the caller's options were applied (explicit values win, including zero: MaxIdx(0))", 1)
+	mk := c.Func("", "makeOptions")
+	optsT := c.Named("", "options")
+	// fields an Option closure can set: stores through a *options parameter in functions of signature func(*options)
+	settable := map[string]bool{}
+	for _, fn := range c.SrcFuncs() {
+		if fn.Pkg != c.SSA[""] || len(fn.Params) != 1 || fn.Signature.Results().Len() != 0 {
+			continue
+		}
+		if pt, ok := fn.Params[0].Type().(*types.Pointer); !ok || !types.Identical(pt.Elem(), optsT) {
+			continue
+		}
+		Instrs(fn, false, func(in ssa.Instruction) {
+			if st, ok := in.(*ssa.Store); ok {
+				if fa, ok := st.Addr.(*ssa.FieldAddr); ok && fa.X == ssa.Value(fn.Params[0]) {
+					settable[fieldName(optsT, fa.Field)] = true
+				}
+			}
+		})
+	}
+	r.Analysed["option-settable fields"] += len(settable)
+	// the application of the caller's options: a dynamic call taking the address of the options value
+	var apply ssa.Instruction
+	Instrs(mk, false, func(in ssa.Instruction) {
+		if call, ok := in.(*ssa.Call); ok && call.Call.StaticCallee() == nil && !call.Call.IsInvoke() && len(call.Call.Args) == 1 {
+			if pt, ok := call.Call.Args[0].Type().(*types.Pointer); ok && types.Identical(pt.Elem(), optsT) {
+				apply = call
+			}
+		}
+	})
+	if apply == nil || len(settable) < 5 {
+		r.add("R20e", c.FnName(mk), "options applied", c.Pos(mk.Pos()), Undecided, true, fmt.Sprintf("could not find the application of the caller's options in makeOptions (or only %d option-settable fields)", len(settable)))
+		return
+	}
+	bad := ""
+	var pos token.Pos
+	Instrs(mk, false, func(in ssa.Instruction) {
+		st, ok := in.(*ssa.Store)
+		if !ok {
+			return
+		}
+		fa, ok := st.Addr.(*ssa.FieldAddr)
+		if !ok || !types.Identical(derefType(fa.X.Type()), optsT) {
+			return
+		}
+		f := fieldName(optsT, fa.Field)
+		if !settable[f] {
+			return
+		}
+		after := false
+		if st.Block() == apply.Block() {
+			after = InstrDominates(apply, st)
+		} else if reachableAvoiding(apply.Block(), st.Block(), nil) {
+			after = true
+		}
+		if after {
+			bad = f
+			pos = st.Pos()
+		}
+	})
+	if pos == token.NoPos {
+		pos = mk.Pos()
+	}
+	r.Check(bad == "", "R20e", c.FnName(mk), "defaults before options", c.Pos(pos), "no option-settable field is stored after the options ran",
+		"makeOptions writes options."+bad+" after the caller's options were applied: an explicit value (MaxIdx(0): only index 0 allowed) is replaced by the default")
+}
+
 func checkC20(c *Ctx, r *Report) {
+	defer userOptionsWinRule(c, r)
 	r.Assumption("strconv.ParseInt implements Go integer literal syntax for base 0 (trusted standard library)")
 	pf := c.Func("", "parseField")
 	name := c.FnName(pf)
